@@ -1,4 +1,5 @@
 import PySMT.Proofs.WalkerMore
+import PySMT.Proofs.WalkerInstSubst
 
 /-!
 # C14 — results do not depend on the environment's history
@@ -69,6 +70,60 @@ theorem size_measure_indep {T : Type} [DecidableEq T] {M : Type} [MemoLike M (T 
 theorem const_cache_indep (v : PyNum) (c : ConstCache) (hc : CacheOK c) :
     (mkInt v c).1 = (mkInt v []).1 ∧ CacheOK (mkInt v c).2 :=
   Walker.const_cache_indep v c hc
+
+/-! ### On terms: whatever the walker memoised before, the walk returns the recursive model's value
+
+    (`termGraph`, `FoldIdle`: see `Props/C20.lean`; `Impl.Simplifier` cannot be imported together with `Impl.Subst`
+    -- both transitively define `PySMT.Build.bvWidth` --, the statement for `simp` is `C20.simplify_walk_eq_simp`.) -/
+
+/-- For any bottom-up function `F` with callbacks `g`: from every idle walker whose memo holds `F` values (any
+    history of walks), the result is `F t` -- a function of `t` alone. -/
+theorem fold_walk_history_indep {M R E : Type} [MemoLike M Term R] [LawfulMemo M Term R]
+    (g : Term → List R → R) (F : Term → R) (hF : ∀ t, F t = g t (t.args.map F))
+    (inval shortcut : Bool) (fuel : Nat) (t : Term) (s : WState M Term) (hi : FoldIdle (fun _ => false) F s)
+    (hfuel : 2 * t.size ≤ fuel) :
+    (walk termGraph (fun _ => false) (fun _ => cbOf (E := E) g) inval shortcut fuel t s).1 = .ok (F t) ∧
+    FoldIdle (fun _ => false) F (walk termGraph (fun _ => false) (fun _ => cbOf (E := E) g) inval shortcut fuel t s).2 :=
+  let h := Walker.walk_eq_fold g F hF inval shortcut fuel t s hi hfuel
+  ⟨h.1, h.2.2⟩
+
+/-- `FreeVarsOracle`: the result is `fvO t` after any history. -/
+theorem freevars_walk_eq {M E : Type} [MemoLike M Term (List Sym)] [LawfulMemo M Term (List Sym)]
+    (inval shortcut : Bool) (fuel : Nat) (t : Term) (s : WState M Term)
+    (hi : FoldIdle (fun _ => false) Oracles.fvO s) (hfuel : 2 * t.size ≤ fuel) :
+    (walk termGraph (fun _ => false)
+      (fun _ => cbOf (E := E) (fun n rs => Oracles.fvNode n.op n.payload rs)) inval shortcut fuel t s).1
+      = .ok (Oracles.fvO t) :=
+  (Walker.freevars_walk_eq inval shortcut fuel t s hi hfuel).1
+
+/-- `SizeOracle` with its real key space `(measure, formula)` and one memo shared by all measures: the walk for
+    measure `m` returns `natSize m t` (tree nodes / leaves / depth) whatever was memoised for any measure before. -/
+theorem size_walk_eq_tagged {M E : Type} [MemoLike M (NatMeasure × Term) Nat] [LawfulMemo M (NatMeasure × Term) Nat]
+    (inval : Bool) (fuel : Nat) (m : NatMeasure) (t : Term) (s : WState M (NatMeasure × Term))
+    (hi : Idle (termGraph.tagged NatMeasure) (fun _ => false)
+            (fun (k : NatMeasure × Term) rs => (.ok (natSizeNode k.1 k.2 rs) : Except E Nat)) s)
+    (V : List (NatMeasure × Term)) (hV : Covers (termGraph.tagged NatMeasure) (fun _ => false) (m, t) V)
+    (hfuel : 2 * cost (termGraph.tagged NatMeasure) V + 2 ≤ fuel) :
+    (walk (termGraph.tagged NatMeasure) (fun _ => false)
+      (fun _ (k : NatMeasure × Term) rs => (.ok (natSizeNode k.1 k.2 rs) : Except E Nat)) inval false fuel (m, t) s).1
+      = .ok (natSize m t) :=
+  Walker.size_walk_eq_tagged inval fuel m t s hi V hV hfuel
+
+/-- `Substituter` (one-shot memo, push override at quantifiers): the walk with map `σ` returns C05's recursive
+    `substG ms h σ t`, so substituting with `σ₁` and then with `σ₂` gives `substG … σ₂`.
+    `_partial`: the nested sub-substituter that the code starts at a quantifier is taken to compute its own recursive
+    model (`substCb` at a quantified node is `substG` of that node); see `Proofs/WalkerInstSubst.lean`. -/
+theorem substitute_walk_eq_partial {M E : Type} [MemoLike M Term Term] [LawfulMemo M Term Term]
+    (ms : Bool) (h : Subst.FnHandler) (σ : Subst.TMap) (inval shortcut : Bool) (fuel : Nat) (t : Term)
+    (s : WState M Term) (hi : FoldIdle (fun n => n.op.isQuantifier) (Subst.substG ms h σ) s)
+    (hfuel : 2 * t.size ≤ fuel) :
+    let r := walk termGraph (fun n => n.op.isQuantifier) (fun _ => cbOf (E := E) (substCb ms h σ))
+               inval shortcut fuel t s
+    r.1 = .ok (Subst.substG ms h σ t) ∧ FoldIdle (fun n => n.op.isQuantifier) (Subst.substG ms h σ) r.2 :=
+  Walker.substitute_walk_eq_partial ms h σ inval shortcut fuel t s hi hfuel
+
+example (σ : Subst.TMap) : FoldIdle (fun n => n.op.isQuantifier) (Subst.substG false Subst.noInterp σ)
+    (WState.init : WState (AMemo Term Term) Term) := foldIdle_init _ _
 
 /-! ### Non-vacuity, and the pre-repair behaviour -/
 
